@@ -338,7 +338,9 @@ TRUSTED = [
     'hand-written Lean model Impl.* of src/query/*.rs and parser.rs, tied to /repo by the behavioural correspondence of this run (sampling, not proof)',
     'gen/pest2lean.py: translator of the .pest grammar into the PEG-combinator model (re-run on every check)',
     'PEG combinators as a rendering of pest 2.x generated code',
-    'rustc/cargo as installed; harness built in release mode with overflow-checks = true',
+    'rustc/cargo as installed; harness built in release mode with overflow-checks = true (ladders additionally on an unoptimised build)',
+    'the ABNF oracle prunes repetitions with FOLLOW sets (differentially checked against the unpruned oracle); documents deeper than 128 levels are built by the harness in code',
+    'C12 only: the source obligation is a textual scan; it presupposes that the dependencies (pest, regex, serde_json) are functions of their inputs',
 ]
 
 
@@ -354,6 +356,9 @@ def write_evidence(ctx, proof, res, t0, nviol):
         'forbidden_construct_hits': proof['forbidden_hits'],
     }
     if 'leanchecker' in proof: cov['leanchecker'] = proof['leanchecker']
+    if ctx.prop == 'C12':
+        cov['source_obligations'] = {'checked': ['no-hidden-state: no mutable static, thread_local!, lazy/once cell, interior mutability, unsafe, clock, environment or file access in /repo/src '
+                                                 '(comments, literals and test modules stripped)'], 'broken': getattr(ctx, 'oblig', None) or []}
     if res is not None:
         cov.update({
             'evaluations': res.stats['cases'],
